@@ -46,6 +46,17 @@ def gen_plan(ch: Chooser, tier: str) -> dict[str, Any]:
             plan['actions'].append({'t': ch.float(horizon * 0.8, horizon + 20.0), 'do': 'edit',
                                     'edit': 'remove-finalizer', 'name': name,
                                     'value': 'other.example.com/hold', 'actor': 'controller'})
+    if ch.bool(0.35):
+        # an object without any payload, labels or annotations: its essence is empty (stored, but falsy)
+        plan['objects'].append({'kind': 'widgets', 'body': {'metadata': {'name': 'bare'}}})
+        for k in range(ch.int(1, 4)):
+            a = changes.gen_edit(ch, 'bare', 900 + k, ch.choice(['status', 'status', 'other-kopf-annotation',
+                                                                  'foreign-finalizer', 'label']))
+            a = changes.fix_sub(a, plan['kinds'][0].get('status_subresource', False))
+            a['t'] = round(ch.float(1.0, horizon), 6)
+            plan['actions'].append(a)
+        if ch.bool(0.3):
+            plan['actions'].append({'t': round(ch.float(horizon * 0.5, horizon), 6), 'do': 'delete', 'name': 'bare'})
     plan['actions'].sort(key=lambda a: a['t'])
     plan['until'] = max(a['t'] for a in plan['actions']) + 100.0
     return plan
